@@ -123,6 +123,38 @@ fn check(case: &Case) -> PResult {
         .class_if(ba.is_static() || bb.is_static(), "static_operand"))
 }
 
+#[derive(Clone, Debug, Serialize, Deserialize)]
+pub struct SameParent {
+    pub parent: SeqSpec,
+    pub i: u16,
+    pub j: u16,
+    pub len: u16,
+}
+
+/// both operands are windows of the same sequence (shared storage, possibly overlapping)
+fn same_parent(case: &SameParent) -> PResult {
+    let sy = Syms::<IupacC>::new()?;
+    let built = build(&sy, &case.parent)?;
+    let p = built.slice();
+    let pc = &case.parent.codes;
+    let n = pc.len();
+    let len = scale16(case.len, n);
+    let i = scale16(case.i, n - len);
+    let j = scale16(case.j, n - len);
+    let (wa, wb) = (&p[i..i + len], &p[j..j + len]);
+    let (ca, cb) = (&pc[i..i + len], &pc[j..j + len]);
+    let what = format!("windows [{i}..{}] and [{j}..{}] of one {n}-symbol sequence", i + len, j + len);
+    let or = no_panic("bitor_panic", "&a | &b (same parent)", || wa | wb)?;
+    check_symbols(&sy, &or, &ca.iter().zip(cb).map(|(x, y)| x | y).collect::<Vec<u8>>(), "same_parent_or").map_err(|f| Fail { site: f.site, msg: format!("{what}: {}", f.msg) })?;
+    let and = no_panic("bitand_panic", "&a & &b (same parent)", || wa & wb)?;
+    check_symbols(&sy, &and, &ca.iter().zip(cb).map(|(x, y)| x & y).collect::<Vec<u8>>(), "same_parent_and").map_err(|f| Fail { site: f.site, msg: format!("{what}: {}", f.msg) })?;
+    ensure_eq!(wa.contains(wb), subset(cb, ca), "same_parent_contains", "a.contains(b) for {what}");
+    ensure_eq!(wb.contains(wa), subset(ca, cb), "same_parent_contains", "b.contains(a) for {what}");
+    ensure!(wa.contains(wa), "same_parent_contains_self", "a window does not contain itself: {what}");
+    check_symbols(&sy, p, pc, "same_parent_unchanged")?;
+    Ok(Pass::new(len >= 2 && i != j).class_if(i != j && i < j + len && j < i + len, "overlapping_operands"))
+}
+
 /// DNA base -> IUPAC singleton, at sequence level too
 fn check_from_dna(case: &SeqSpec) -> PResult {
     let sd = Syms::<DnaC>::new()?;
@@ -226,6 +258,9 @@ pub fn run(ctx: &mut Ctx) {
             check,
         );
     }
+    let cases = ctx.cases(2500, 10);
+    let st = (gen::seq_spec(ID, 100), any::<u16>(), any::<u16>(), any::<u16>()).prop_map(|(parent, i, j, len)| SameParent { parent, i, j, len });
+    ctx.forall("same_parent", cases, st, same_parent);
     let cases = ctx.cases(1500, 10);
     ctx.forall("from_dna", cases, gen::seq_spec(CodecId::Dna, 150), check_from_dna);
     // exhaustive: all 256 symbol pairs x all 256 pairs of start offsets (length-1 windows)
@@ -267,4 +302,5 @@ pub fn run(ctx: &mut Ctx) {
     ctx.require_class("length_mismatch");
     ctx.require_class("independent_offsets");
     ctx.require_class("static_operand");
+    ctx.require_class("overlapping_operands");
 }
